@@ -207,6 +207,7 @@ static int v_close(int fd)
 {
   int i, e = sys_fail();
   if (fd == STDOUT_FILENO) { if (e) { errno = e; return -1; } stdout_closed = true; return 0; }
+  if (fd == STDIN_FILENO) { if (e) { errno = e; return -1; } return 0; }
   for (i = 0; i < NOPER; i++) {
     if (fd == in_fd_of[i]) { fin[i].open_fd = false; if (e) { errno = e; return -1; } return 0; }
     if (fd == out_fd_of[i]) {
@@ -356,14 +357,14 @@ void work(void)
 #define EXPECT_OUT1 "?"
 #endif
 static char a_pname[] = PNAME, a_args[] = ARGS, a_op0[] = OPER0, a_op1[] = OPER1;
-static bool opt_keep, opt_force, opt_decompress, opt_stdout, opt_test;
+static bool opt_keep, opt_force, opt_decompress, opt_stdout, opt_test, filter_mode;
 
 static void end_of_process(void)
 {
   int i;
   check_kill_safety();
   for (i = 0; i < NOPER; i++) {
-    bool regular_run = !opt_stdout && !opt_test;
+    bool regular_run = !opt_stdout && !opt_test && !filter_mode;
     /* C17: without -f an existing output file is never modified or removed */
     if (!opt_force) PROP(!fout[i].touched, "without -f a pre-existing output file is never modified or removed (C17)");
     /* C16: a run that fails or is stopped by a signal leaves no partial output behind */
@@ -387,14 +388,25 @@ static void end_of_process(void)
       PROP(exit_code != 0, "such operands are skipped with a warning, never silently (exit status is not 0)");
     }
 #ifdef EXPECT_SKIP
+    if ((EXPECT_SKIP >> i) & 1) {
     PROP(!fout[i].ours && !out_name_set[i], "when compressing, operands with a .bz2/.tbz/.tbz2/.tz2 suffix are always skipped");
     PROP(exit_code != 0, "skipping is announced (exit status 4, or 1 if the warning itself cannot be written)");
     if (exit_code == 4) WITNESS("compressed_suffix_skipped");
+    }
 #endif
 #ifdef EXPECT_OUT
     if (out_name_set[i]) PROP(strcmp(out_name[i], i == 0 ? EXPECT_OUT : EXPECT_OUT1) == 0, "output file is named by the documented suffix rules (C17)");
 #endif
   }
+#if NOPER > 1
+  if (exit_code == 0 || exit_code == 4) { WITNESS("both_operands_processed"); }
+  if ((exit_code == 1 || death_signal) && !fout[1].ours && fout[0].ours && fout[0].exists) {
+    WITNESS("fatal_error_on_second_operand");
+    PROP(fout[0].content == C_COMPLETE && !fout[0].open_fd, "after a fatal error earlier operands are already complete (C18)");
+  }
+  if ((exit_code == 1 || death_signal) && cur == 0)
+    PROP(fin[1].exists == (IN.op[1].in_exists != 0) && !fout[1].ours && !fout[1].touched, "a fatal error stops processing: later operands are untouched (C18)");
+#endif
   if (exit_code == 0) PROP(!warned, "exit status 0 only without warnings");
   if (exit_code == 4) PROP(warned, "exit status 4 only after a warning");
   PROP(exit_code == -1 || exit_code == 0 || exit_code == 1 || exit_code == 4, "exit status is 0, 1 or 4");
@@ -470,6 +482,7 @@ void h_main_filter(void)
   char *argv[3];
   int argc = 0;
   setup();
+  filter_mode = true;
   ASSUME((IN.stdin_tty & 1) == 0 && (IN.stdout_tty & 1) == 0);
   argv[argc++] = a_pname; argv[argc++] = a_args; argv[argc] = 0;
 #ifdef REPLAY
